@@ -17,7 +17,8 @@ ID = "C20"
 LEVEL = "fault_enumeration"
 EXHAUSTIVE = True
 RULE = ("every history = k retryable failures (each ConnectError|ConnectTimeout at the TCP or, for https, "
-        "the TLS stage) for k in 0..N+1, followed by every terminal (success, non-connect exception at TCP "
+        "the TLS stage) for k in 0..N+1, followed by every terminal (success, each of 9 non-connect exceptions - a custom "
+        "class, OSError, Read/Write/PoolTimeout, Read/WriteError, ProxyError, RemoteProtocolError - at TCP "
         "or TLS stage, or exhaustion) x N in 0..4 x {tcp, unix socket} x {http, https} x {asyncio, trio, "
         "sync}; successful histories are followed by an injected post-establishment read fault; a history "
         "is distinct by (flavour, transport, scheme, N, outcome tuple)")
@@ -56,9 +57,15 @@ class ScriptBackendMixin:
         return CountingTLS(stream, self)
 
 
+OTHERS = {"Other": Boom, "ReadTimeout": httpcore.ReadTimeout, "WriteTimeout": httpcore.WriteTimeout,
+          "PoolTimeout": httpcore.PoolTimeout, "ReadError": httpcore.ReadError, "WriteError": httpcore.WriteError,
+          "OSError": OSError, "ProxyError": httpcore.ProxyError, "RemoteProtocolError": httpcore.RemoteProtocolError}
+
+
 def _exc(name):
-    return {"ConnectError": httpcore.ConnectError("scripted"), "ConnectTimeout": httpcore.ConnectTimeout("scripted"),
-            "Other": Boom("scripted non-connect failure"), "ReadError": httpcore.ReadError("scripted")}[name]
+    if name in OTHERS:
+        return OTHERS[name]("scripted non-connect failure")
+    return {"ConnectError": httpcore.ConnectError("scripted"), "ConnectTimeout": httpcore.ConnectTimeout("scripted")}[name]
 
 
 class CountingTLS:
@@ -156,7 +163,7 @@ def histories(n, https):
     retry = [("tcp", "ConnectError"), ("tcp", "ConnectTimeout")]
     if https:
         retry += [("tls", "ConnectError"), ("tls", "ConnectTimeout")]
-    term = [("ok",), ("tcp", "Other")] + ([("tls", "Other")] if https else [])
+    term = [("ok",)] + [("tcp", o) for o in OTHERS] + ([("tls", o) for o in OTHERS] if https else [])
     for k in range(0, n + 2):
         for pre in itertools.product(retry, repeat=k):
             if k == n + 1:
@@ -238,7 +245,7 @@ def run_case(case):
             cnt["post_establishment_faults"] += 1
             want = "ReadError"
         else:
-            want = {"Other": "Boom"}.get(exp_final, exp_final)
+            want = OTHERS[exp_final].__name__ if exp_final in OTHERS else exp_final
         if res.get("final") != want:
             viol.append({"key": f"outcome:{'post-establishment' if post else 'establishment'}",
                          "what": f"retries={n} history={hist}: final {res.get('final')} ({res.get('exc')}), model {want}",
